@@ -155,17 +155,6 @@ func runJob(j job) jobResult {
 	default:
 		ks = pickKs(limit, j.NK, j.Seed)
 	}
-	if j.GoLoop > 0 {
-		// only the polls at which the iteration index of the Go loop is unambiguous: the poll of the
-		// instruction that emits inside the callback (the callback emits exactly once)
-		var sel []int
-		for _, k := range ks {
-			if k < len(points) && points[k].emits == points[k-1].emits+1 && len(points[k-1].stack) > 3 && points[k-1].stack[:3] == "L P" {
-				sel = append(sel, k)
-			}
-		}
-		ks = sel
-	}
 	if j.Calib {
 		ks = append(ks, limit+1, limit+5) // beyond the end: the context never fires
 	}
@@ -184,9 +173,6 @@ func runJob(j job) jobResult {
 		o.Outc, o.Err = outcome(err, reason)
 		if o.Fired {
 			o.TraceOK = k-1 < len(points) && points[k-1].stack == joinTags(stack) && points[k-1].emits == before
-			if j.GoLoop > 0 {
-				o.GoRemaining = j.GoLoop - (before + 1)
-			}
 		} else {
 			o.TraceOK = res.Terminated && e.c.n == res.TracePolls && o.Outc == res.TraceOutc
 			before = len(e.emits)
